@@ -3,7 +3,7 @@ Spec: Amplifier.tla (gain lattice model, replayed), Units.tla (ASE monomial, dim
 import random, math, warnings
 import numpy as np
 from scipy.constants import h as H_PLANCK
-from ..core import deadline, import_repo, fresh_repo
+from ..core import deadline, import_repo, pollute_gv, fresh_repo
 from ..behav import parse_ev
 from ..rng_tap import tap, explain
 
@@ -106,6 +106,7 @@ def run(ctx):
         if len(ev["sig"]) == 1:
             s, nz = s[0], (None if nz is None else nz[0])
         G = {1: 0.0, 10: 20.0, 100: 40.0}[ev["g"]]
+        pollute_gv(gv, k % 2 == 1)               # user-defined globals (gv.BW, gv.G, gv.NF, ...) present on every other call
         np.random.seed(k)
         one(s, nz, G, [3.0, 5.0, 10.0][k % 3], ("lattice", len(ev["sig"]), ev["hasnoise"], G), dtype_k=k % 3)
         ctx.case(("lattice", len(ev["sig"]), ev["hasnoise"], G, k % 3, s.shape[-1]), {"sig": ev["sig"], "noise": ev["noise"], "G": G})
@@ -130,6 +131,7 @@ def run(ctx):
                 warnings.simplefilter("ignore")
                 gv(R=rnd.choice([4e9, 3e9]), fs=rnd.choice([10e9, 25e9]))          # fs/R not an integer: fs is what counts
         G, NF = rnd.uniform(0, 40) if it % 7 else 0.0, rnd.uniform(3, 10)
+        pollute_gv(gv, it % 2 == 0)
         np.random.seed(1000 + it)
         one(s if npol == 2 else s[0], None if nz is None else (nz if npol == 2 else nz[0]), G, NF, ("random", npol, noisy, round(G)), dtype_k=2 if it % 6 == 1 else (1 if it % 4 == 0 else 0))
         ctx.case(("random", npol, noisy, int(G) // 10, it % 4 == 0, n > 100, it % 6 == 1, it % 5 == 3))
